@@ -12,7 +12,9 @@ CHECK = {
              "(global unit: implicit box boundary + background / explicit box boundary with the "
              "complement as a material / sphere boundary + background; daughter unit with explicit "
              "or implicit boundary placed under 7 transforms);  b = all ordered leaf pairs x "
-             "{union, intersection, subtraction} x transform of the 2nd operand;  c = two "
+             "{union, intersection, subtraction} x transform of the 2nd operand (on the third of the pairs "
+             "with (a+2b)%3==0 the 1st operand sits under rz = quarter turn about z + translation; "
+             "likewise p for (a+2b)%3==1 and t for (a+2b+c)%3==2);  c = two "
              "differently placed copies of a leaf x 3 operations;  n = near-coincident copies "
              "(sub-tolerance translation / rotation nested inside each transform) x 3 operations;  "
              "p = partition {A&B, A-B, B-A} of a pair as three materials of one unit;  t (thorough) "
@@ -59,9 +61,9 @@ CHECK = {
     "bounds": {"quick": {"leaves": "50 base + 5 extended", "probes_per_program": "1458 (+729 per extra content box in h, + directed probes in f)", "depth": 2,
                          "tolerances": 2, "hierarchy": "4 universes, depth 3, b in {sph1, pc1}, A under tr",
                          "far_copies": "4 transform pairs at tol=1, the two 4e-3 pairs at the default tolerance",
-                         "self_daughter_transforms": "alternating half of 7",
+                         "self_daughter_transforms": "alternating half of 7 (parity with transform, polarity and leaf index)",
                          "near_coincident_tol1_transforms": "id, tr, gen",
-                         "unary_daughter_transforms": "alternating half of 7",
+                         "unary_daughter_transforms": "alternating half of 7 (parity with transform, polarity and leaf index)",
                          "binary_operand_transforms": "tr, gen, (a+b)%10 of 11",
                          "copies_transform_pairs": 5, "partition_operand_transforms": 1},
                "thorough": {"leaves": "50 base + 5 extended", "probes_per_program": "1458 (+729 per extra content box in h, + directed probes in f)", "depth": 3, "depth3_leaves": 12,
